@@ -95,7 +95,7 @@ func (cs *c04Case) kindKey() string {
 		return "conflict-free"
 	}
 	parts := []string{}
-	for _, k := range []string{"reduce-reduce", "multi-way", "shift-reduce-across-rules", "shift-reduce-unqualified"} {
+	for _, k := range []string{"reduce-reduce", "multi-way", "shift-reduce-across-rules", "shift-reduce-unqualified", "shift-levels-differ"} {
 		if cs.RR.Kinds[k] > 0 {
 			parts = append(parts, k)
 		}
@@ -108,7 +108,7 @@ func checkC04(c *Ctx) error {
 		"grammars of every kind (structured, random, operator tables with @left/@right, deliberately unresolvable variants: unqualified operator, conflict across rules, reduce/reduce between qualified alternatives; the LR(1)-but-not-LALR(1) pattern) are judged by an independent reference: canonical LR(1) -> merge by core, then the documented precedence rule. Three observation points of the real code: P0 = lr1.ConstructLALR driven directly (hook), P2 = the real ParseLox stage on .lox text (hook, in-process), P1 = the lox CLI (exit status and 'grammar has conflicts'). Verdict must equal the reference verdict; for every grammar the whole automaton (every action cell, every goto) must be isomorphic to the reference (cells decided by equal-level associativity: only 'exactly one action', direction is C05). Non-trivial: grammars with at least one conflict cell before resolution, or at least 8 states; distinct by grammar text.")
 	c.Ev.Assumptions = []string{
 		"reference: internal/oracle/lalr (textbook construction, differentially tested) + documented rule: one shift + one reduce, all productions of one rule, all explicitly qualified; higher level wins, equal level by associativity",
-		"grammars in which the productions wanting a shift carry different levels, or one level mixes @left and @right, are skipped (documentation does not say)",
+		"a cell whose shifting productions carry different levels stays a conflict (any choice would be a silent pick); grammars in which one level mixes @left and @right in a cell decided by associativity are skipped (documentation does not say)",
 	}
 	stats := map[string]int{}
 	var mu sync.Mutex
